@@ -27,6 +27,9 @@ type (
 		mu              sync.Mutex
 		f               http.Flusher
 		keepAliveTicker *time.Ticker
+		// closed is set (under mu) once the final event is about to be written; the
+		// keep-alive goroutine must not touch the ResponseWriter afterwards.
+		closed bool
 	}
 )
 
@@ -111,7 +114,9 @@ func (t SSE) Do(w http.ResponseWriter, r *http.Request, exec graphql.GraphExecut
 
 	if opErr != nil {
 		resp := exec.DispatchError(ctx, opErr)
+		c.mu.Lock()
 		writeJsonWithSSE(w, resp)
+		c.mu.Unlock()
 	} else {
 		responses, ctx := exec.DispatchOperation(ctx, rc)
 		for {
@@ -119,14 +124,22 @@ func (t SSE) Do(w http.ResponseWriter, r *http.Request, exec graphql.GraphExecut
 			if response == nil {
 				break
 			}
+			c.mu.Lock()
 			writeJsonWithSSE(w, response)
+			c.mu.Unlock()
 			c.flush()
 
 			c.resetTicker(t.KeepAlivePingInterval)
 		}
 	}
 
+	// The ResponseWriter is not safe for concurrent use: writes of the keep-alive
+	// goroutine are serialized with ours through mu, and it is told to stop before
+	// the final event so that nothing follows it.
+	c.mu.Lock()
+	c.closed = true
 	fmt.Fprint(w, "event: complete\n\n")
+	c.mu.Unlock()
 }
 
 func (c *sseConnection) resetTicker(interval time.Duration) {
@@ -144,8 +157,15 @@ func (c *sseConnection) keepAlive(w io.Writer) {
 			c.keepAliveTicker.Stop()
 			return
 		case <-c.keepAliveTicker.C:
+			c.mu.Lock()
+			if c.closed {
+				c.mu.Unlock()
+				c.keepAliveTicker.Stop()
+				return
+			}
 			fmt.Fprintf(w, ": ping\n\n")
-			c.flush()
+			c.f.Flush()
+			c.mu.Unlock()
 		}
 	}
 }
